@@ -34,12 +34,16 @@ def build_set(ctx, names):
             fl = msan_flags("-O1")
             out.append({"tag": n, "lib": ctx.lib(n, "clang", fl), "cc": "clang", "hflags": fl})
         else:
-            cc, opt = n.split("-", 1)
-            out.append({"tag": n, "lib": ctx.lib(n, cc, ["-" + opt]), "cc": cc, "hflags": []})
+            # "gcc-O2" or "gcc-O3+march=native+funsigned-char": extra flags after '+'
+            base, *extra = n.split("+")
+            cc, opt = base.split("-", 1)
+            out.append({"tag": n, "lib": ctx.lib(n.replace("=", "_"), cc, ["-" + opt] + ["-" + e for e in extra]), "cc": cc, "hflags": []})
     return out
 
 
 MATRIX = ["gcc-O0", "gcc-O1", "gcc-O2", "gcc-O3", "gcc-Os", "clang-O0", "clang-O1", "clang-O2", "clang-O3", "clang-Os"]
+# code-generation variants beyond the optimisation level: wide vector units, the other signedness of plain char
+MATRIX_X = ["gcc-O3+march=native", "clang-O3+march=native", "gcc-O2+funsigned-char", "clang-O2+funsigned-char", "gcc-O2+fwrapv+fno-strict-aliasing"]
 
 
 def batch_jobs(ctx, exe, tag, args, nb):
@@ -115,8 +119,8 @@ def c02(ctx):
     load_replay(ctx)
     ctx.model_selfcheck()
     W, R, NL = ctx.q((32, 4, 16), (70, 12, 150))
-    builds = build_set(ctx, ctx.q(["prod", "gcc-O0", "gcc-O2", "clang-O2", "clang-O3", "asan-gcc"],
-                                  ["prod"] + MATRIX + ["asan-gcc", "asan-clang"]))
+    builds = build_set(ctx, ctx.q(["prod", "gcc-O0", "gcc-O2", "clang-O2", "clang-O3", "gcc-O2+funsigned-char", "asan-gcc"],
+                                  ["prod"] + MATRIX + MATRIX_X + ["asan-gcc", "asan-clang"]))
     # same seed and same case list for every build: build-independence = all of them equal the model
     run_harness_on(ctx, "h_aead.c", builds, ["--mode", "model", "--p1", W, "--p2", R, "--p3", NL], ctx.q(4, 16))
     # the shared object as shipped
@@ -198,7 +202,7 @@ def c09(ctx):
     load_replay(ctx)
     ctx.model_selfcheck()
     W, R, NL = ctx.q((32, 3, 16), (70, 10, 150))
-    builds = build_set(ctx, ctx.q(["prod", "gcc-O2", "clang-O3", "asan-gcc"], ["prod"] + MATRIX + ["asan-gcc", "asan-clang"]))
+    builds = build_set(ctx, ctx.q(["prod", "gcc-O2", "clang-O3", "asan-gcc"], ["prod"] + MATRIX + MATRIX_X + ["asan-gcc", "asan-clang"]))
     run_harness_on(ctx, "h_aead.c", builds, ["--mode", "model,pairs,siv", "--p1", W, "--p2", R, "--p3", NL], ctx.q(4, 16))
     # positive control: the same pair generator through plain AEAD must show related bodies
     run_harness_on(ctx, "h_aead.c", build_set(ctx, ["prod"]), ["--mode", "pairs", "--p1", W, "--p2", 1, "--p3", 0], 2, hname="h_aead-ctl")
@@ -286,7 +290,7 @@ def c10(ctx):
     ctx.model_selfcheck()
     N, reps, NL = ctx.q((200, 1, 24), (1500, 6, 400))
     builds = build_set(ctx, ctx.q(["prod", "gcc-O0", "gcc-O2", "clang-O2", "clang-O3", "asan-gcc", "msan"],
-                                  ["prod"] + MATRIX + ["asan-gcc", "asan-clang", "msan"]))
+                                  ["prod"] + MATRIX + MATRIX_X + ["asan-gcc", "asan-clang", "msan"]))
     run_hash(ctx, builds, ["--mode", "hash", "--p1", N, "--p2", reps, "--p3", NL], ctx.q(4, 16), "h_hash")
     ctx.rule = ("every length 0..N x 6 byte classes (x repetitions), placement (end-guard/start-guard/mid+canary) and alignment offset 0..7 "
                 "rotating with the index, NULL for length 0 in half of the cases; random long lengths (to 64 KiB; thorough: one 4 MiB message); "
